@@ -80,8 +80,10 @@ FLAG_NAMES = ["rbx changed", "rbp changed", "r12 changed", "r13 changed", "r14 c
 # signature and value generation
 
 
-def gen_signature(r, force_ret=None):
+def gen_signature(r, force_ret=None, force_n=None):
     n = r.choice([0, 1, 2, 3, 4, 5, 6, 7, 8, 9, 10, 11, 12, 7, 8, 9, 10, 11, 12])
+    if force_n is not None:
+        n = force_n
     profile = r.choice(["int", "fp", "mixed", "mixed", "alt"])
     params = []
     for i in range(n):
@@ -733,20 +735,24 @@ def plan(tier, seed, avoid):
 
 
 def floors(tier):
-    # quick tier on the unchanged tree (seeds 0..2): 5350..5760 evaluations, 610..616 distinct, A = 1920,
-    # B = C >= 1716, stack parameters: int/long/ptr >= 150, sub-int + float + double >= 120 (or rewritten by avoid switches)
-    return {"evaluations": 3500, "distinct_nontrivial": 450, "observed.thunk_selftests": 16,
-            "observed.direction.A": 1500, "observed.direction.B": 1200, "observed.direction.C": 1200,
+    # Each floor is <= 40% of the minimum over VERIF_SEED 0..5 of the quick tier on the unchanged tree (evaluations
+    # 5760, distinct 608, 32 executables, A = B = C = 1920; stack parameters int/long/ptr >= 86, all classes >= 30;
+    # double:freg >= 1000, float:freg >= 970, char:ireg >= 190, ptr:ireg >= 200); return types, parameter counts
+    # and levels are complete by construction (make_sig cycles through them).
+    return {"evaluations": 2300, "distinct_nontrivial": 240, "observed.thunk_selftests": 12,
+            "observed.direction.A": 760, "observed.direction.B": 680, "observed.direction.C": 680,
             "observed.ret": 12, "observed.nparams": 13, "observed.level": 2,
-            "observed.stack_params.int_long_ptr": 60, "observed.stack_params": 2,
-            "observed.param_location.double:freg": 300, "observed.param_location.float:freg": 300,
-            "observed.param_location.char:ireg": 50, "observed.param_location.ptr:ireg": 50}
+            "observed.stack_params.int_long_ptr": 34, "observed.stack_params": 2,
+            "observed.param_location.double:freg": 380, "observed.param_location.float:freg": 380,
+            "observed.param_location.char:ireg": 75, "observed.param_location.ptr:ireg": 80}
 
 
 def make_sig(seed, j, avoid):
     r = rng(seed, PROPERTY, j)
-    force = RET_TYPES[j % len(RET_TYPES)] if j % 3 == 0 else None
-    ret, raw = gen_signature(r, force)
+    # every return type and every parameter count occurs in any 39 consecutive indices by construction
+    force = RET_TYPES[(j // 3) % len(RET_TYPES)] if j % 3 == 0 else None
+    force_n = (j // 3) % 13 if j % 3 == 1 else None
+    ret, raw = gen_signature(r, force, force_n)
     params, dirs, used = apply_avoid(raw, avoid)
     # the vectors are drawn for the parameter list that is actually used
     sig = {"k": j, "ret": ret, "params": params, "dirs": dirs, "vectors": gen_vectors(r, ret, params)}
